@@ -283,7 +283,7 @@ impl Typed for C40 {
                             );
                             return;
                         }
-                        if mine[0].1 != *negotiated {
+                        if mine.first().is_some_and(|m| m.1 != *negotiated) {
                             ctx.violate("handler-saw-different-protocol-than-dialer", format!("dial {i}"));
                             return;
                         }
